@@ -29,6 +29,14 @@ CHECKS = [
           "Runtime monitor over multisets of single signatures: validity of each member is established independently (public verify + blst), then |valid index union| >= k => aggregate Ok and result verifies, and Ok(S) => Ok(S+X) for every extra material X (duplicates, same-sigma relabelled copies, corrupted, other-message, other-registration, unregistered slot), all orders for |S|<=5. Held on the multisets explored.",
           "trusts blst, the public SingleSignature::verify as definition of 'valid'",
           "runtime monitor: metamorphic (monotonicity / order independence) + completeness oracle over generated multisets", "DESIGN.md §2 C02"),
+    check("C06", "mon-stm", "exploration",
+          "Runtime monitor: for each generated registration set the aggregate key bytes, total stake and every party's slot are observed through mithril-stm directly, through mithril-common's SignerBuilder over KES-certified fixture signers, and after passing signers and key through their JSON/hex wire forms; observations must be equal across all registration orders (all n! for n<=6, sampled above) and paths, and differ for neighbouring sets. Held on the sets explored.",
+          "Blake2b collision resistance; equal-prefix keys are drawn from a pool of a few hundred keys (pairs sharing 2 leading bytes, not more)",
+          "runtime monitor: metamorphic equality across permutations / computation paths / codecs", "DESIGN.md §2 C06"),
+    check("C08", "mon-stm", "exploration",
+          "Runtime monitor with an offline exact checker: the real is_lottery_won (eligibility.rs of the working tree compiled in by path inclusion) is evaluated on ~20k (quick) to millions (thorough) of cases concentrated around the threshold; every decision is logged and judged by an independent mpmath (600-bit) evaluation of p < 1-(1-phi)^(stake/total) outside a 2^-40 band; determinism, monotonicity chains, stake 0, phi 1 and signer/verifier agreement per index are asserted online.",
+          "mpmath as reference; 2^-40 band around equality is not judged; only the num-integer backend (the one compiled in this workspace) is observed",
+          "runtime monitor: decision log + offline exact-arithmetic checker (differential), online monotonicity/determinism assertions", "DESIGN.md §2 C08"),
 ]
 
 ALL = [f"C{i:02d}" for i in range(1, 21)]
